@@ -1,9 +1,85 @@
 import WzVerif.Driver.Proto
 import WzVerif.Driver.C06
+import WzVerif.Model.RequestAttrs
 namespace Wz.Driver.C07
-open Wz Wz.Proto
+open Wz Wz.Proto Wz.Http Wz.Driver.C06
 
-/-- C07 uses the exception-aware parsers of Model/Http.lean through the same commands as C06 -/
-def handle : Handler := Wz.Driver.C06.handle
+/-! C07 uses the exception-aware parsers of Model/Http.lean through the same commands as C06, plus
+the composed `Request` attributes of Model/RequestAttrs.lean (`req.*`). -/
+
+def pairArg (s : String) : Option (Str × Str) :=
+  match s.splitOn ":" with
+  | [a, b] => match unhexStr a, unhexStr b with
+    | some a, some b => some (a, b)
+    | _, _ => none
+  | _ => none
+
+def pairsArg (s : String) : Option (List (Str × Str)) :=
+  if s == "[]" then some [] else (s.splitOn ",").mapM pairArg
+
+def outQ (q : Wz.Accept.Q) : String := let n := q.norm; toString n.num ++ "/" ++ toString n.scale
+
+def outItems (l : List (Str × Wz.Accept.Q)) : String := outList (fun (v, q) => hexStr v ++ "=" ++ outQ q) l
+
+def outUse (u : Wz.Req.AcceptUse) : String :=
+  outList outBool u.contains ++ "|" ++ outList (fun q => outQ (q.getD Wz.Accept.Q.zero)) u.quality ++ "|" ++ outOpt hexStr u.best
+
+/-- the idna codec as an association list supplied by the harness (`~` = UnicodeError) -/
+def idnaOf (tbl : List (Str × Option Str)) : Wz.Dbg.Idna := fun s =>
+  match tbl.find? (fun p => p.1 == s) with
+  | some (_, some r) => .ok r
+  | some (_, none) => .error "UnicodeError"
+  | none => .error "MISSING-IDNA"
+
+def acceptCmd {σ : Type} (N : Wz.Accept.Neg σ Wz.Accept.Q) (hdr : Option Str) (offers : List Str)
+    (use : List (Str × Wz.Accept.Q) → List Str → Wz.Req.AcceptUse) : String :=
+  match Wz.Req.acceptOf N hdr with
+  | .error e => "EXC:" ++ e
+  | .ok self => outItems self ++ "|" ++ outUse (use self offers)
+
+def handle : Handler
+  | "req.args", [qs] =>
+    match unhexStr qs with
+    | some qs => some (exc pairsStr (Wz.Req.args { queryString := qs }))
+    | none => some badArgs
+  | "req.cookies", [h] =>
+    match optArg unhexStr h with
+    | some h => some (pairsStr (Wz.Req.cookies { cookie := h }))
+    | none => some badArgs
+  | "req.mimetype", [h] =>
+    match optArg unhexStr h with
+    | some h =>
+      let e : Wz.Req.Env := { contentType := h }
+      some (exc id (do
+        let mt ← Wz.Req.mimetype e
+        let ps ← Wz.Req.mimetypeParams e
+        let j ← Wz.Req.isJson e
+        pure (hexStr mt ++ "|" ++ pairsStr ps ++ "|" ++ outBool j)))
+    | none => some badArgs
+  | "req.host", [scheme, h, name, port, trusted, idna] =>
+    match unhexStr scheme, optArg unhexStr h, unhexStr name, optArg natArg port,
+        optArg listArg trusted, pairsOptArg idna with
+    | some scheme, some h, some name, some port, some trusted, some idna =>
+      let e : Wz.Req.Env := { scheme := scheme, host := h, serverName := name, serverPort := port, trustedHosts := trusted }
+      some (exc hexStr (Wz.Req.host (idnaOf idna) e))
+    | _, _, _, _, _, _ => some badArgs
+  | "req.accept", [cls, h, offers, aliases] =>
+    match optArg unhexStr h, listArg offers, pairsArg aliases with
+    | some h, some offers, some aliases =>
+      match cls with
+      | "accept" => some (acceptCmd Wz.Accept.acceptNeg h offers (Wz.Req.useAccept Wz.Accept.acceptNeg))
+      | "mime" => some (acceptCmd Wz.Accept.mimeNeg h offers (Wz.Req.useAccept Wz.Accept.mimeNeg))
+      | "charset" => some (acceptCmd (Wz.Accept.charsetNeg aliases) h offers (Wz.Req.useAccept (Wz.Accept.charsetNeg aliases)))
+      | "lang" => some (acceptCmd Wz.Accept.langNeg h offers Wz.Req.useLanguages)
+      | _ => some badArgs
+    | _, _, _ => some badArgs
+  | "req.ifrange", [h, dateOf] =>
+    -- `parse_date` is Python's: the harness passes what it answered for this value (`~` = None)
+    match optArg unhexStr h, optArg natArg dateOf with
+    | some h, some d =>
+      some (match Wz.Req.ifRange (fun _ => d) { ifRange := h } with
+        | .empty => "~|~" | .etag e => hexStr e ++ "|~" | .date t => "~|" ++ toString t)
+    | _, _ => some badArgs
+  | cmd, args => Wz.Driver.C06.handle cmd args
 
 end Wz.Driver.C07
